@@ -73,7 +73,7 @@ def extract_unit(src, unit, hh):
     cache = os.path.join(WORK, "facts")
     os.makedirs(cache, exist_ok=True)
     out = os.path.join(cache, "%s.%s.json" % (unit.replace("/", "_"), key))
-    if not os.path.exists(out):
+    if not os.path.exists(out) or os.environ.get("KSI_FRESH"):
         tmp = out + ".tmp%d" % os.getpid()
         cmd = [KSIFACTS, tmp, unit, "--", "-DHAVE_CONFIG_H", "-I.", "-I" + os.path.dirname(src),
                "-I" + CLANG_RES, "-std=gnu11", "-w"]
